@@ -7,6 +7,7 @@ from .. import paths
 from ..core import FUNC, call_attr, calls_in, const, dotted, is_const, kwarg, norm, text, walk_local
 
 EXPLANATION = [
+    'C11.permissions-writers: `.permissions` of an attribute is assigned only in Attribute.__init__, from the constructor argument (directly or through Permissions.from_string): nothing clears requirement bits afterwards.',
     'C11.except-name: no name bound by `except ... as name` is read after its handler: Python deletes it when the handler ends, so the read raises UnboundLocalError exactly when the exception was caught.',
     "C11.authenticated-source: every assignment to a connection's `authenticated` flag in bumble.device derives from the strength of the key in use (pairing method, key's authenticated flag, link-key type) or is guarded by such a test; BR/EDR-only sites are named exceptions. OPEN FINDINGS on the current tree: Device.on_pairing and the LE branch of Device.on_connection_encryption_change assign True unconditionally.",
     'C11.declared-permissions: Server.add_service registers the very objects the application declared (no loop variable over declared descriptors / characteristics is rebound before add_attribute) and builds attributes of its own, with default permissions, only under the test that the application declared none.',
@@ -421,7 +422,29 @@ def except_name_rule(ctx):
     except_name_escape(ctx, 'C11.except-name', ['bumble.gatt_server', 'bumble.att', 'bumble.gatt'])
 
 
+def permissions_writers(ctx):
+    """The gate tests `attribute.permissions`: what the application declared is what is tested.  The field is written once,
+    in Attribute.__init__, from the constructor argument; nothing narrows it afterwards (by properties or otherwise)."""
+    R, p = ctx.r, ctx.p
+    rule = 'C11.permissions-writers'
+    n = 0
+    for mn in ('bumble.att', 'bumble.gatt', 'bumble.gatt_server', 'bumble.gatt_adapters'):
+        m = p.modules.get(mn)
+        if m is None:
+            continue
+        for st in [x for x in ast.walk(m.tree) if isinstance(x, (ast.Assign, ast.AugAssign, ast.AnnAssign))]:
+            tg = st.targets if isinstance(st, ast.Assign) else [st.target]
+            for t in tg:
+                if isinstance(t, ast.Attribute) and t.attr == 'permissions':
+                    n += 1
+                    q = p.qual_of(st)
+                    ok = isinstance(st, ast.Assign) and q.endswith('Attribute.__init__') and (norm(st.value) == 'permissions' or 'from_string(permissions)' in norm(st.value))
+                    R.check(ok, rule, f'{q} | {norm(st)[:60]}', 'stored from the constructor argument', f'`{norm(st)[:70]}` changes an attribute\'s permissions after / other than by its declaration: the access gate then tests something else than what the application required (requirement bits cleared -> protected value readable / writable on a plain link)', f'{m.rel}:{st.lineno}')
+    R.check(n >= 2, rule, 'bumble.att, bumble.gatt | writers of .permissions', f'{n} assignments, all in Attribute.__init__ from the argument', f'only {n} assignments found')
+
+
 RULES = [
+    ('C11.permissions-writers', permissions_writers),
     ('C11.except-name', except_name_rule),
     ('C11.authenticated-source', authenticated_source),
     ('C11.declared-permissions', declared_permissions),
